@@ -13,6 +13,7 @@ import (
 	"testing"
 	"time"
 
+	"github.com/bluenviron/mediamtx/internal/logger"
 	kit "github.com/bluenviron/mediamtx/internal/verifkit"
 	"pgregory.net/rapid"
 )
@@ -105,6 +106,19 @@ func c13CleanDumps() {
 	}
 }
 
+// c13Stop stops a Core. CertLoader.Close does not wait for its watch goroutine, which may still log through
+// Parent=Core after Core.Close returned; Core.logger is nil by then and the whole test process would die
+// (upstream race, reported separately). A throw-away logger installed right after Close shrinks that window to
+// practically nothing; it plays no role in what C13 asserts.
+func c13Stop(c *vcCore) {
+	l := &logger.Logger{Level: logger.Error, Destinations: nil}
+	l.Initialize() //nolint:errcheck
+	c.tr.CloseIdleConnections()
+	c.Core.Close()
+	c.Core.logger = l
+	os.RemoveAll(c.Dir)
+}
+
 // c13Apply applies the change to the running Core and returns once the reload has been carried out (or the Core died).
 func c13Apply(t c13TB, c *vcCore, ch *c13Change, mode string) (retry string) {
 	switch mode {
@@ -152,13 +166,13 @@ func c13RunOnce(t c13TB, ch *c13Change, mode string) c13Outcome {
 
 	c, err := vcStartCoreYAML(c13JSON(ch.Old), ports)
 	if err != nil {
-		out.Retry = "old configuration did not start (port taken meanwhile?)"
+		out.Retry = "old configuration did not start" + c13LogTail(ch)
 		return out
 	}
 	stopped := false
 	defer func() {
 		if !stopped {
-			c.Stop()
+			c13Stop(c)
 		}
 	}()
 	sOld, instOld := c13Live(c.Core)
@@ -177,7 +191,7 @@ func c13RunOnce(t c13TB, ch *c13Change, mode string) c13Outcome {
 	} else {
 		sRel, instRel = c13Live(c.Core)
 	}
-	c.Stop()
+	c13Stop(c)
 	stopped = true
 	if !reloadFailed {
 		c13Complete(sRel, instRel)
@@ -191,17 +205,20 @@ func c13RunOnce(t c13TB, ch *c13Change, mode string) c13Outcome {
 		}
 	}
 	if c2 == nil {
-		out.Retry = fmt.Sprintf("new configuration did not start from scratch (reload failed too: %v)", reloadFailed)
+		out.Retry = fmt.Sprintf("new configuration did not start from scratch (reload failed too: %v)%s", reloadFailed, c13LogTail(ch))
 		return out
 	}
 	sNew, instNew := c13Live(c2.Core)
-	c2.Stop()
+	c13Stop(c2)
 	c13Complete(sNew, instNew)
 
 	if reloadFailed {
-		out.Violations = append(out.Violations,
-			"the reload failed and the server shut down, although a fresh server starts with the new configuration"+c13LogTail(ch))
-		out.Retry = "reload failed but a fresh start works (transient port clash?)"
+		tail := c13LogTail(ch)
+		out.Retry = "reload failed but a fresh start works" + tail
+		if !c13EnvironmentLimit(tail) {
+			out.Violations = append(out.Violations,
+				"the reload failed and the server shut down, although a fresh server starts with the new configuration"+tail)
+		}
 		return out
 	}
 
@@ -330,7 +347,24 @@ func c13LogTail(ch *c13Change) string {
 	if len(out) == 0 {
 		return ""
 	}
-	return " [log: " + strings.Join(out, " | ") + "]"
+	// name the configuration fields that own the addresses mentioned in the log
+	var owners []string
+	for k, v := range ch.New {
+		if sv, ok := v.(string); ok && strings.Contains(sv, ":") {
+			_, port := c13HostPort(sv)
+			if port != "" && strings.Contains(strings.Join(out, " "), ":"+port+":") {
+				owners = append(owners, k+"="+sv)
+			}
+		}
+	}
+	sort.Strings(owners)
+	return " [log: " + strings.Join(out, " | ") + "] " + strings.Join(owners, " ")
+}
+
+// c13EnvironmentLimit recognises failures caused by machine-wide limits shared with every other process
+// (inotify instances: 128 per user, each certificate loader takes two).
+func c13EnvironmentLimit(logTail string) bool {
+	return strings.Contains(logTail, "too many open files") || strings.Contains(logTail, "no space left on device")
 }
 
 func c13Describe(ch *c13Change, mode string) string {
@@ -349,7 +383,10 @@ func c13Describe(ch *c13Change, mode string) string {
 func c13Run(t c13TB, build func(cx *c13Cx) *c13Change, mode string) (*c13Change, c13Outcome) {
 	var last c13Outcome
 	var ch *c13Change
-	for attempt := 0; attempt < 3; attempt++ {
+	for attempt := 0; attempt < 4; attempt++ {
+		if attempt > 0 {
+			time.Sleep(time.Duration(attempt) * 700 * time.Millisecond) // let whoever exhausted the shared limit finish
+		}
 		cx := c13NewCx()
 		ch = build(cx)
 		last = c13RunOnce(t, ch, mode)
@@ -361,7 +398,7 @@ func c13Run(t c13TB, build func(cx *c13Cx) *c13Change, mode string) (*c13Change,
 	}
 	if last.Retry != "" && len(last.Violations) == 0 {
 		fmt.Println("VERIF-INCONCLUSIVE: environment:", last.Retry)
-		t.Fatalf("VERIF-INCONCLUSIVE: %s (3 attempts)\n%s", last.Retry, c13Describe(ch, mode))
+		t.Fatalf("VERIF-INCONCLUSIVE: %s (4 attempts)\n%s", last.Retry, c13Describe(ch, mode))
 	}
 	sort.Strings(last.Violations)
 	return ch, last
